@@ -29,6 +29,8 @@ class TPKT(ParsableBase):
             raise InvalidValue(parser['version'], TPKT, 'version')
         parser.parse_numeric('reserved', 1)
         parser.parse_numeric('packet_length', 2)
+        if parser['packet_length'] < cls.HEADER_SIZE:
+            raise InvalidValue(parser['packet_length'], TPKT, 'packet_length')
 
         if len(parsable) < parser['packet_length']:
             raise NotEnoughData(parser['packet_length'] - len(parsable))
@@ -81,6 +83,8 @@ class COTPConnectionBase(ParsableBase):
         parser = ParserBinary(parsable)
 
         parser.parse_numeric('length_indicator', 1)
+        if parser['length_indicator'] < cls.HEADER_SIZE - 1:
+            raise InvalidValue(parser['length_indicator'], cls, 'length_indicator')
         if parser.unparsed_length < parser['length_indicator']:
             raise NotEnoughData(parser['length_indicator'] - parser.unparsed_length)
 
